@@ -7,8 +7,8 @@
 #include "world.h"
 #include "peek.h"
 
-enum { DV_NONE = 0, DV_DELETE, DV_DUP, DV_SWAP, DV_SUBST, DV_INJECT, DV_SKIP, DV_FINMUT, DV_HRR, DV_N };
-static const char *DV_NAME[] = { "none", "msg_delete", "msg_dup", "msg_swap", "msg_subst", "msg_inject", "peer_skips_msg", "peer_finished_edited", "forged_hello_retry_request" };
+enum { DV_NONE = 0, DV_DELETE, DV_DUP, DV_SWAP, DV_SUBST, DV_INJECT, DV_SKIP, DV_FINMUT, DV_HRR, DV_BYZINS, DV_N };
+static const char *DV_NAME[] = { "none", "msg_delete", "msg_dup", "msg_swap", "msg_subst", "msg_inject", "peer_skips_msg", "peer_finished_edited", "forged_hello_retry_request", "peer_inserts_msg" };
 
 struct Mode { int ver; uint16_t suite; int kind; int cauth; int resume; int tickets; const char *name; };
 static const Mode MODES[] = {
@@ -21,6 +21,7 @@ static const Mode MODES[] = {
     { 5, TLS_ECDHE_RSA_WITH_AES_128_GCM_SHA256, KK_RSA2048, 0, 0, 0, "client_tls13_and_12_server_tls12_only" }, { 5, TLS_ECDHE_RSA_WITH_AES_128_CBC_SHA, KK_RSA2048, 0, 0, 0, "client_tls13_and_11_server_tls11_only" },
     { 2, TLS_AES_128_GCM_SHA256, KK_EC256, KK_EC256, 2, 1, "tls13_cauth_unknown_psk_offered" }, { 2, TLS_AES_128_GCM_SHA256, KK_EC256, 0, 2, 1, "tls13_unknown_psk_offered" },
     { 3, TLS_ECDHE_ECDSA_WITH_AES_128_CBC_SHA, KK_EC256, 0, 0, 0, "dtls10_ecdhe" }, { 4, TLS_RSA_WITH_AES_128_GCM_SHA256, KK_RSA2048, KK_RSA2048, 0, 0, "dtls12_rsa_cauth" }, { 4, TLS_ECDHE_RSA_WITH_AES_128_CBC_SHA256, KK_RSA2048, 0, 1, 0, "dtls12_resumed" },
+    { 1, TLS_ECDHE_RSA_WITH_AES_128_GCM_SHA256, KK_RSA2048, 0, 1, 1, "tls12_ecdhe_ticket_resumed" }, { 1, TLS_ECDHE_ECDSA_WITH_AES_128_CBC_SHA, KK_EC256, 0, 1, 0, "tls12_ecdhe_ecdsa_resumed" }, { 0, TLS_ECDHE_RSA_WITH_AES_128_CBC_SHA, KK_RSA2048, 0, 1, 1, "tls11_ecdhe_ticket_resumed" },
 };
 static const int NMODES = sizeof MODES / sizeof MODES[0];
 
@@ -31,6 +32,13 @@ static const Skip SKIPS[] = { { 1, 11, "certificate" }, { 1, 12, "server_key_exc
                               { 0, 11, "certificate_and_certificate_verify", 15 }, { 1, 11, "certificate_and_certificate_verify", 15 }, { 1, 14, "server_hello_done" } };
 static const int NSKIPS = sizeof SKIPS / sizeof SKIPS[0];
 
+// messages a byzantine TLS <= 1.2 peer may ADD (accounted in its own transcript too): before which of its own messages, and what
+struct InsAt { int byz_is_server; int before; const char *name; };
+static const InsAt INS_AT[] = { { 1, 254, "before_ccs" }, { 1, 12, "before_server_key_exchange" }, { 1, 11, "before_certificate" }, { 0, 254, "before_ccs" }, { 0, 16, "before_client_key_exchange" }, { 0, 15, "before_certificate_verify" } };
+static const int NINS_AT = sizeof INS_AT / sizeof INS_AT[0];
+static const int INS_MSG[] = { 11, 12, 14, 16, 13 };     // taken from an earlier full handshake of the same pair (14: an empty ServerHelloDone)
+static const int NINS_MSG = 5;
+
 static Plan mk(int mode, int dv, int dir, int k, int a, uint64_t seed) {
     Plan p; p.seed = seed; p.cfg["mode"] = mode; p.cfg["dv"] = dv; p.cfg["dir"] = dir; p.cfg["k"] = k; p.cfg["a"] = a; return p;
 }
@@ -38,7 +46,7 @@ static Plan c06_gen(uint64_t seed, int tier, uint64_t index) {
     (void) tier; (void) index;
     Rng r(seed);
     int dv = 1 + (int) r.below(DV_N - 1);
-    return mk((int) r.below(NMODES), dv, (int) r.below(2), (int) r.below(dv == DV_SKIP ? NSKIPS : dv == DV_FINMUT ? 4 : 9), (int) r.below(64), seed);
+    return mk((int) r.below(NMODES), dv, (int) r.below(2), (int) r.below(dv == DV_SKIP ? NSKIPS : dv == DV_FINMUT ? 4 : dv == DV_BYZINS ? NINS_AT : 9), (int) r.below(64), seed);
 }
 // all single-step deviations of every mode
 static std::vector<Plan> c06_fixed(int tier) {
@@ -57,6 +65,7 @@ static std::vector<Plan> c06_fixed(int tier) {
         for (int s = 0; s < NSKIPS; s++) { v.push_back(mk(m, DV_SKIP, 0, s, 0, 60000 + v.size())); }
         for (int dir = 0; dir < 2; dir++) { for (int k = 0; k < 4; k++) { for (int a = 0; a < (k == 3 ? 4 : 1); a++) { v.push_back(mk(m, DV_FINMUT, dir, k, a * 29 + 3, 60000 + v.size())); } } }
         if (MODES[m].ver == 5 || MODES[m].ver == 1 || MODES[m].ver == 0) { for (int a = 0; a < 4; a++) { v.push_back(mk(m, DV_HRR, 0, 0, a, 60000 + v.size())); } }
+        if (MODES[m].ver == 1 || MODES[m].ver == 0) { for (int k = 0; k < NINS_AT; k++) { for (int a = 0; a < NINS_MSG; a++) { v.push_back(mk(m, DV_BYZINS, 0, k, a, 60000 + v.size())); } } }
     }
     return v;
 }
@@ -91,6 +100,15 @@ static RunResult c06_exec(const Plan &p) {
         if (!w.setup(pc)) { res.harness_error = true; res.detail = "setup rc=" + std::to_string(w.setup_rc); }
         else {
             bool ok = true;
+            std::map<int, Bytes> earlier[2];     // plaintext handshake messages of an earlier full handshake of this pair, by direction and type
+            bool byzins = dv == DV_BYZINS && (M.ver == 0 || M.ver == 1);
+            if (M.resume || byzins) {
+                w.filter = [&](Record &r, std::vector<Bytes> &out) {
+                    if (r.type == 22 && r.body_len() >= 4) { const unsigned char *b = r.raw.data() + r.hdr; size_t l = (size_t) b[1] << 16 | (size_t) b[2] << 8 | b[3]; if (l + 4 == r.body_len() && !earlier[r.dir].count(b[0]) && b[0] != 20) { earlier[r.dir][b[0]] = Bytes(b, b + r.body_len()); } }
+                    out.push_back(r.raw);
+                };
+            }
+            if (byzins && !M.resume) { ok = w.connect(false) && w.handshake(); w.close_sessions(); }    // a full handshake whose messages the byzantine peer re-uses; leaves no resumable state with the client
             if (M.resume) {   // first connection, undisturbed
                 ok = w.connect() && w.handshake();
                 if (ok) { Bytes x = tagged_payload(0, 1, 20); w.cli->app_send(x.data(), x.size()); w.pump(); w.cli->app_close(); w.pump(); }
@@ -108,6 +126,7 @@ static RunResult c06_exec(const Plan &p) {
             else {
                 // sibling trace (same mode) for foreign-message substitution: captured from a fault-free run of this very pair later if needed
                 bool applied = false; std::string what = "none"; bool benign = false;
+                bool byz_wire_pending = false; int byz_dir = 0, byz_before = 0; Bytes byz_msg;
                 int hs_index[2] = { 0, 0 };               // index among plaintext handshake + CCS records per direction
                 Bytes held; bool have_held = false; bool ccs_seen[2] = { false, false };
                 std::vector<Bytes> seen[2];
@@ -120,6 +139,9 @@ static RunResult c06_exec(const Plan &p) {
                     bool prot = dtls ? false : ccs_seen[r.dir];
                     uint8_t mtype = r.type == 20 ? 254 : prot ? 20 /* the protected record after CCS is Finished */ : (r.body_len() ? r.raw[r.hdr] : 255);
                     if (r.type == 20) { ccs_seen[r.dir] = true; }
+                    if (byz_wire_pending && d == byz_dir && mtype == byz_before && vsim_hs_inserted() && !prot) {
+                        out.push_back(make_record(22, r.ver, byz_msg)); byz_wire_pending = false; applied = true;
+                    }
                     if (have_held && d == ddir) { out.push_back(r.raw); out.push_back(held); have_held = false; seen[d].push_back(r.raw); return; }
                     if (dv == DV_HRR && !applied && d == DIR_C2S && idx == 0 && mtype == 1 && !dtls) {
                         // the man in the middle swallows the first ClientHello and answers it himself with a HelloRetryRequest (plaintext, no key
@@ -183,6 +205,15 @@ static RunResult c06_exec(const Plan &p) {
                     what = std::string("peer_skips_msg:") + (S.byz_is_server ? "server_" : "client_") + S.name;
                 }
                 if (dv == DV_HRR) { rcv_role = 0; }
+                if (byzins) {
+                    const InsAt &I = INS_AT[(size_t) k % NINS_AT]; int mt = INS_MSG[(size_t) a % NINS_MSG];
+                    byz_node = I.byz_is_server ? NODE_SERVER : NODE_CLIENT; rcv_role = I.byz_is_server ? 0 : 1; byz_dir = I.byz_is_server ? DIR_S2C : DIR_C2S; byz_before = I.before;
+                    // the added message: one this node (or, failing that, its peer) sent in the earlier handshake; ServerHelloDone is empty anyway
+                    if (earlier[byz_dir].count(mt)) { byz_msg = earlier[byz_dir][mt]; } else if (earlier[1 - byz_dir].count(mt)) { byz_msg = earlier[1 - byz_dir][mt]; } else if (mt == 14) { byz_msg = Bytes{ 14, 0, 0, 0 }; }
+                    if (!byz_msg.empty() && byz_msg.size() <= 8000) { vsim_hs_insert(byz_node, I.before, byz_msg.data(), byz_msg.size()); byz_wire_pending = true; }
+                    what = std::string("peer_inserts_msg:") + (I.byz_is_server ? "server_adds_" : "client_adds_") + hs_type_name(mt) + "_" + I.name;
+                    // a CertificateRequest in front of ServerHelloDone-less positions is still a foreign message; none of the added ones is ever legal at these points
+                }
                 if (dv == DV_FINMUT) {
                     // byzantine peer holding the session keys: its own Finished is edited before it is sealed (AEAD suites: the seam sits at the seal primitive)
                     byz_node = ddir == DIR_C2S ? NODE_CLIENT : NODE_SERVER; rcv_role = ddir == DIR_C2S ? 1 : 0;
@@ -190,9 +221,10 @@ static RunResult c06_exec(const Plan &p) {
                     else if (M.ver != 2) { vsim_pt_mutate(byz_node, 0, (M.ver >= 3 ? 12 : 4) + a % 12, 1, 3, 1u << (a % 8)); what = "peer_finished_edited:verify_data_bit_flipped"; }
                     else { vsim_pt_short_finished(byz_node, 31); what = "peer_finished_edited:verify_data_cut_by_one_byte"; }
                 }
-                if (!w.connect()) { res.harness_error = true; res.detail = "connect failed"; }
+                if (!w.connect(M.resume || !byzins)) { res.harness_error = true; res.detail = "connect failed"; }
                 else {
                     w.handshake();
+                    if (byzins) { applied = applied && vsim_hs_inserted(); vsim_hs_insert(-1, -1, nullptr, 0); }
                     if (have_held) { applied = applied && true; }   // the swapped-out record was never followed by another one: it became a deletion
                     uint64_t skipped = vsim_hs_skipped();
                     vsim_hs_skip(-1, -1, 0);
